@@ -428,11 +428,12 @@ func (app *App) stateManager() appState {
 	if err != nil && !errors.Is(err, dcs.ErrNotFound) {
 		app.logger.Error().Err(err).Msg("failed to get maintenance from zk")
 
-		// If maintenance file doesn't exist we were in light maintenance mode
-		// and can proceed in state Manager
 		if app.doesMaintenanceFileExist() {
 			return stateMaintenance
 		}
+		// Without the file we may still be in (light or just acknowledged) maintenance:
+		// do nothing until the maintenance state can be read
+		return stateManager
 	}
 
 	lightMaintenance := maintenance != nil && maintenance.IsLightMode()
